@@ -1,0 +1,15 @@
+//go:build verif
+
+package lsm
+
+// VerifQueueThrottle drives the same entry point AdjustThrottle uses (throttleWrites), so the
+// DB-level callback and the LSM-level `throttled` latch move together.
+func (lsm *LSM) VerifQueueThrottle(on bool) { lsm.throttleWrites(on) }
+
+// VerifQueuePauseCompaction keeps the background compaction workers from running cycles
+// (each cycle starts with AdjustThrottle, which would undo a test-driven throttle).
+func (lsm *LSM) VerifQueuePauseCompaction() {
+	if lsm != nil && lsm.levels != nil && lsm.levels.compaction != nil {
+		lsm.levels.compaction.VerifQueuePause()
+	}
+}
